@@ -31,6 +31,7 @@ type Func struct {
 	Body     antlr.Tree
 	// what is written inside the body (nested class bodies and lambda bodies included or not, see Calls)
 	Nested bool // the body holds a class body (anonymous or local class) or a lambda
+	CallOutsideBody bool // an invocation or creation stands in the parameter list or the modifiers (`@Ann(f())`): no constant, hence no Java that compiles; left open
 }
 
 // Type is a top-level type declaration.
@@ -43,6 +44,7 @@ type Type struct {
 	DeepNames map[string]int // the same without the direct members
 	NestedTypes int // number of class bodies inside the type, at any depth (member, local and anonymous classes, enum constant bodies)
 	NamedInner  int // number of named type declarations inside the type (member and local types)
+	InnerCreatorBodies int // `outer.new Inner() { ... }`: anonymous subclasses of inner classes (outside the conventional subset)
 	Annotations []string
 }
 
@@ -136,6 +138,7 @@ func Parse(text string) Unit {
 		declaredNames(t, ty.AllNames, &ty.NestedTypes)
 		ty.NestedTypes-- // the type itself
 		ty.NamedInner = namedTypes(t) - 1
+		ty.InnerCreatorBodies = innerCreatorBodies(t)
 		ty.DeepNames = map[string]int{}
 		for k, v := range ty.AllNames {
 			ty.DeepNames[k] = v
@@ -182,6 +185,7 @@ func interfaceMember(m *parser.InterfaceMemberDeclarationContext) (Func, bool) {
 	params(c.FormalParameters().(*parser.FormalParametersContext), &f)
 	f.Body = c.MethodBody()
 	f.Nested = holdsNested(f.Body)
+	f.CallOutsideBody = callsOutside(c, c.FormalParameters()) || annotationsHoldCall(c)
 	return f, true
 }
 
@@ -191,7 +195,59 @@ func method(c *parser.MethodDeclarationContext, generic bool) Func {
 	params(c.FormalParameters().(*parser.FormalParametersContext), &f)
 	f.Body = c.MethodBody()
 	f.Nested = holdsNested(f.Body)
+	f.CallOutsideBody = callsOutside(c, c.FormalParameters())
 	return f
+}
+
+// callsOutside: an invocation or creation in the parameter list or among the modifiers of the member.
+func callsOutside(decl antlr.Tree, params antlr.Tree) bool {
+	if holdsCall(params) {
+		return true
+	}
+	// the modifiers are siblings of the memberDeclaration / interfaceMemberDeclaration
+	for n := decl.GetParent(); n != nil; n = n.GetParent() {
+		switch n.(type) {
+		case *parser.ClassBodyDeclarationContext, *parser.InterfaceBodyDeclarationContext:
+			for i := 0; i < n.GetChildCount(); i++ {
+				if _, ok := n.GetChild(i).(*parser.ModifierContext); ok && holdsCall(n.GetChild(i)) {
+					return true
+				}
+			}
+			return false
+		case *parser.InterfaceMethodDeclarationContext, *parser.GenericInterfaceMethodDeclarationContext:
+			for i := 0; i < n.GetChildCount(); i++ {
+				if _, ok := n.GetChild(i).(*parser.InterfaceMethodModifierContext); ok && holdsCall(n.GetChild(i)) {
+					return true
+				}
+			}
+		}
+	}
+	return false
+}
+
+func annotationsHoldCall(c *parser.InterfaceCommonBodyDeclarationContext) bool {
+	for _, a := range c.AllAnnotation() {
+		if holdsCall(a) {
+			return true
+		}
+	}
+	return false
+}
+
+func holdsCall(node antlr.Tree) bool {
+	if node == nil {
+		return false
+	}
+	switch node.(type) {
+	case *parser.MethodCallContext, *parser.CreatorContext, *parser.InnerCreatorContext:
+		return true
+	}
+	for i := 0; i < node.GetChildCount(); i++ {
+		if holdsCall(node.GetChild(i)) {
+			return true
+		}
+	}
+	return false
 }
 
 func ctor(c *parser.ConstructorDeclarationContext, generic bool) Func {
@@ -200,6 +256,7 @@ func ctor(c *parser.ConstructorDeclarationContext, generic bool) Func {
 	params(c.FormalParameters().(*parser.FormalParametersContext), &f)
 	f.Body = c.Block()
 	f.Nested = holdsNested(f.Body)
+	f.CallOutsideBody = callsOutside(c, c.FormalParameters())
 	return f
 }
 
@@ -244,6 +301,19 @@ func declaredNames(node antlr.Tree, names map[string]int, bodies *int) {
 	}
 }
 
+func innerCreatorBodies(node antlr.Tree) int {
+	n := 0
+	if c, ok := node.(*parser.InnerCreatorContext); ok {
+		if r, ok := c.ClassCreatorRest().(*parser.ClassCreatorRestContext); ok && r.ClassBody() != nil {
+			n = 1
+		}
+	}
+	for i := 0; i < node.GetChildCount(); i++ {
+		n += innerCreatorBodies(node.GetChild(i))
+	}
+	return n
+}
+
 func namedTypes(node antlr.Tree) int {
 	n := 0
 	switch node.(type) {
@@ -264,7 +334,7 @@ func (u Unit) Conventional() bool {
 		return false
 	}
 	t := u.Types[0]
-	return (t.Kind == "class" || t.Kind == "interface") && t.NamedInner == 0
+	return (t.Kind == "class" || t.Kind == "interface") && t.NamedInner == 0 && t.InnerCreatorBodies == 0
 }
 
 func holdsNested(node antlr.Tree) bool {
